@@ -75,11 +75,20 @@ pub fn type_range(ty: &Ty) -> (f64, f64) {
 
 /// clamp((v-lo)/(hi-lo), 0, 1) computed with halved operands (no overflow), 0 for a degenerate range
 pub fn norm_ref(v: f64, lo: f64, hi: f64) -> f64 {
-    let w = hi * 0.5 - lo * 0.5;
-    if !(w > 0.0) {
+    // degenerate or undefined range
+    if !(lo < hi) {
         return 0.0;
     }
-    let x = (v * 0.5 - lo * 0.5) / w;
+    if v <= lo {
+        return 0.0;
+    }
+    if v >= hi {
+        return 1.0;
+    }
+    // lo < v < hi: the differences are exact enough as long as they do not overflow; only then
+    // the halved form is used (halving is inexact for subnormal numbers)
+    let d = hi - lo;
+    let x = if d.is_finite() { (v - lo) / d } else { (v * 0.5 - lo * 0.5) / (hi * 0.5 - lo * 0.5) };
     x.clamp(0.0, 1.0)
 }
 
